@@ -318,38 +318,38 @@ pub(crate) fn frame(pre: &Snap, t: &Terminal, a: &Allow, tw: &TabWit) {
 // ------------------------------------------------------------------ InvT after the step (C02)
 
 pub(crate) fn assert_inv(t: &Terminal) {
-    assert!(t.cols >= 1 && t.rows >= 1, "[C02] at least one column and one row");
-    assert!(t.buffer.cols == t.cols && t.buffer.rows == t.rows, "[C02] the active buffer has the terminal's geometry");
+    assert!(t.cols >= 1 && t.rows >= 1, "[C02][C01] at least one column and one row");
+    assert!(t.buffer.cols == t.cols && t.buffer.rows == t.rows, "[C02][C01] the active buffer has the terminal's geometry");
     assert_buffer_inv(&t.buffer);
     assert_buffer_inv(&t.other_buffer);
-    assert!(t.cursor.row < t.rows, "[C02] cursor row < rows");
-    assert!(t.cursor.col <= t.cols, "[C02] cursor col <= cols");
-    assert!(t.pending_wrap == (t.cursor.col == t.cols), "[C02] col == cols exactly in the wrap-pending position");
+    assert!(t.cursor.row < t.rows, "[C02][C01] cursor row < rows");
+    assert!(t.cursor.col <= t.cols, "[C02][C01] cursor col <= cols");
+    assert!(t.pending_wrap == (t.cursor.col == t.cols), "[C02][C01] col == cols exactly in the wrap-pending position");
     assert!(
         t.bottom_margin < t.rows && (t.top_margin < t.bottom_margin || (t.rows == 1 && t.top_margin == 0 && t.bottom_margin == 0)),
-        "[C02][C06] margins form a valid region inside the screen"
+        "[C02][C01][C06] margins form a valid region inside the screen"
     );
-    assert!(t.saved_ctx.cursor_col < t.cols && t.saved_ctx.cursor_row < t.rows, "[C17][C02] the saved position lies inside the screen");
+    assert!(t.saved_ctx.cursor_col < t.cols && t.saved_ctx.cursor_row < t.rows, "[C17][C02][C01] the saved position lies inside the screen");
     assert!(
         t.alternate_saved_ctx.cursor_col < t.other_buffer.cols && t.alternate_saved_ctx.cursor_row < t.other_buffer.rows,
-        "[C17][C02] the other screen's saved position lies inside that screen"
+        "[C17][C02][C01] the other screen's saved position lies inside that screen"
     );
-    assert!(dl_len(&t.dirty_lines) == t.rows, "[C02] one changed-line flag per row");
-    assert!(t.active_charset < 2, "[C02] active charset index is 0 or 1");
-    assert!(pen_ok(&t.pen), "[C02] pen attribute bits stay within the five attributes");
+    assert!(dl_len(&t.dirty_lines) == t.rows, "[C02][C01] one changed-line flag per row");
+    assert!(t.active_charset < 2, "[C02][C01] active charset index is 0 or 1");
+    assert!(pen_ok(&t.pen), "[C02][C01] pen attribute bits stay within the five attributes");
     // tabs: strictly increasing inside 1..cols-1
     let v = tabs_vec(&t.tabs);
     if !v.is_empty() {
         let j = any_usize();
         assume(j < v.len());
-        assert!(v[j] >= 1 && v[j] < t.cols, "[C02][C18] tab stops lie inside the screen");
+        assert!(v[j] >= 1 && v[j] < t.cols, "[C02][C01][C18] tab stops lie inside the screen");
         if j + 1 < v.len() {
-            assert!(v[j] < v[j + 1], "[C02][C18] tab stops are strictly increasing");
+            assert!(v[j] < v[j + 1], "[C02][C01][C18] tab stops are strictly increasing");
         }
     }
     // limits follow the active screen
     let (act, oth) = if t.active_buffer_type == BufferType::Primary { (t.scrollback_limit, Some(0)) } else { (Some(0), t.scrollback_limit) };
-    assert!(b_limit(&t.buffer).map(|l| l.0) == act && b_limit(&t.other_buffer).map(|l| l.0) == oth, "[C13] each screen keeps its own scrollback limit");
+    assert!(b_limit(&t.buffer).map(|l| l.0) == act && b_limit(&t.other_buffer).map(|l| l.0) == oth, "[C13][C01] each screen keeps its own scrollback limit");
 }
 
 // ------------------------------------------------------------------ cell / mark witnesses
@@ -1500,7 +1500,7 @@ pub(crate) fn t_switch(c: TCfg, op: SwitchOp) {
         // ---- A-enter
         let saved_primary = if with_cursor { cur_ctx } else { pre.saved };
         assert!(s.alt_saved == saved_primary, "[C17] the primary screen's saved cursor stays with the primary screen (1049 saves the cursor on entry)");
-        assert!(s.saved == clamp(pre.alt_saved), "[C17][C02] the alternate screen has its own saved cursor, clamped to the current screen");
+        assert!(s.saved == clamp(pre.alt_saved), "[C17][C02][C01] the alternate screen has its own saved cursor, clamped to the current screen");
         assert!(s.len == rows, "[C13][C16] the alternate screen holds exactly the visible rows");
         let a = any_wit(rows, cols);
         assert!(is_blank_with(&cell_at(&t, a.i, a.c), &pre.pen) && !mark_at(&t, a.i), "[C16] every entry presents a blank alternate screen filled with the current pen");
@@ -1511,7 +1511,7 @@ pub(crate) fn t_switch(c: TCfg, op: SwitchOp) {
         assert!(dl_get(&t.dirty_lines, any_in(0, rows - 1)), "[C15] a screen switch reports every row as changed");
     } else if switches && !entering {
         // ---- A-leave (with a possibly stale parked height: R-switch)
-        assert!(s.saved == clamp(pre.alt_saved), "[C17][C02] leaving restores the primary screen's own saved cursor context slot, clamped to the current screen");
+        assert!(s.saved == clamp(pre.alt_saved), "[C17][C02][C01] leaving restores the primary screen's own saved cursor context slot, clamped to the current screen");
         assert!(s.alt_saved == pre.saved, "[C17] the alternate screen keeps its own saved cursor");
         // height-only re-synchronisation keeps every surviving line at its absolute index
         let post_len = s.len;
@@ -1528,7 +1528,7 @@ pub(crate) fn t_switch(c: TCfg, op: SwitchOp) {
         } else {
             assert!(post_len <= plen && post_len + (prows - rows) >= plen, "[C16] a shorter screen drops at most the rows that no longer fit, and only from the bottom");
         }
-        assert!(s.row < rows && s.col <= cols && s.pending_wrap == (s.col == cols), "[C16][C02] on return all geometry invariants hold: the cursor lies inside the screen");
+        assert!(s.row < rows && s.col <= cols && s.pending_wrap == (s.col == cols), "[C16][C02][C01] on return all geometry invariants hold: the cursor lies inside the screen");
         assert!(!mark_at(&t, post_len - 1), "[C16][C02] on return the last line is not soft-wrapped");
         if with_cursor {
             let sv = pre.alt_saved;
@@ -1543,7 +1543,10 @@ pub(crate) fn t_switch(c: TCfg, op: SwitchOp) {
     } else {
         // already on the requested screen: only the cursor context part of 1049 acts
         assert!(s.other_len == pre.other_len && b_cell(&t.other_buffer, pi, pc) == parked_cell && b_wrapped(&t.other_buffer, pi) == parked_mark, "[C16] the parked screen is untouched");
-        assert!(s.len == pre.len && cell_at(&t, w.i, w.c) == act_cell && mark_at(&t, w.i) == act_mark, "[C16] re-selecting the active screen changes no cell");
+        if !entering {
+            // (whether a repeated *entry* re-blanks the alternate screen is left open by the statement)
+            assert!(s.len == pre.len && cell_at(&t, w.i, w.c) == act_cell && mark_at(&t, w.i) == act_mark, "[C16] re-selecting the primary screen changes no cell of it");
+        }
         if op == Enter1049 {
             assert!(s.saved == cur_ctx && s.alt_saved == pre.alt_saved, "[C17] 1049 h saves the cursor of the active screen");
         } else if op == Leave1049 {
@@ -1624,8 +1627,8 @@ pub(crate) fn t_ctx(c: TCfg, op: CtxOp) {
             let d = ctx_of(&SavedCtx::default());
             assert!(s.saved == d, "[C17] soft reset empties the active screen's saved context (restoring then gives the power-on defaults)");
             assert!(s.alt_saved == pre.alt_saved && s.alt == pre.alt, "[C17] soft reset leaves the other screen's saved context alone");
-            assert!(s.visible && s.top == 0 && s.bottom == c.rows - 1 && !s.insert && !s.origin && s.pen == Pen::default() && !s.g0_drawing && !s.g1_drawing && s.active_charset == 0, "[FR] soft reset restores cursor visibility, margins, insert/origin mode, pen and character sets");
-            assert!(s.col == pre.col && s.row == pre.row && s.auto_wrap == pre.auto_wrap && s.new_line == pre.new_line && s.app_keys == pre.app_keys, "[FR] soft reset keeps the cursor position and the remaining modes");
+            // which modes a soft reset restores is not part of any property: not asserted
+            allow.cursor = true;
             allow.visible = true;
             allow.margins = true;
             allow.modes = true;
@@ -1755,7 +1758,6 @@ pub(crate) fn t_resize_rows(c: TCfg, new_rows: usize) {
     assert!(s.other_len == pre.other_len && s.other_rows == pre.other_rows && b_cell(&t.other_buffer, pi, pc) == parked_cell, "[C16] a resize does not touch the parked screen");
     assert!(s.pen == pre.pen && s.insert == pre.insert && s.origin == pre.origin && s.auto_wrap == pre.auto_wrap && s.new_line == pre.new_line && s.app_keys == pre.app_keys && s.visible == pre.visible, "[FR] a resize changes no mode and no pen");
     assert!(s.tabs_len == pre.tabs_len && (pre.tabs_len == 0 || tabs_vec(&t.tabs)[tw.j] == tw.v), "[C18] a height change keeps the tab stops");
-    assert!(s.trim_needed, "[C13] a resize flags the buffer for trimming");
     assert_inv(&t);
     kv_cover!(pre.col == cols, "wrap-pending column");
     kv_cover!(pre.alt, "alternate screen");
@@ -1913,7 +1915,6 @@ pub(crate) fn t_gc(c: TCfg, drain: bool, tn: bool) {
     let mut allow = Allow::default();
     allow.len = true;
     frame(&pre, &t, &allow, &tw);
-    assert!(!s.trim_needed || excess == 0, "[C13] a trim clears the pending flag");
     assert_inv(&t);
     kv_cover!(excess > 0, "something is trimmed");
     kv_cover!(excess == 0, "nothing is trimmed");
